@@ -10,6 +10,8 @@ NAME = "slot"
 PROPERTIES = ["C13"]
 S = "metrique/src/slot.rs"
 VARIANT_DEFAULTS = {"slot_inv": "exclusive"}
+# failures of these obligations only say that the candidate invariant of a variant is not the code's invariant (vf/check.py, any_of)
+INVARIANT_OBLIGATIONS = ["wait_preserves_the_slot_invariant"]
 
 def r_async(text):
     """RA: `.await` -> `.verif_await()`: awaiting the oneshot receiver is a call that returns when the sender was consumed or dropped
